@@ -16,7 +16,7 @@ pub const DEF: PropDef = PropDef {
     run,
     replay,
     level: "exploration",
-    rule: "complete enumeration of the finite configuration space: (A) 38 patterns x {25519,P256} x all 16 combinations of {local static, remote static} supplied to the two roles, also on every single-psk variant of the pattern with the PSK given at build time or left for set_psk(): each build must be Ok iff the role's required keys (derived from the harness's own pattern table: local static iff the role's s occurs as pre-message or message token; remote static iff the peer's s is a pre-message) are supplied, else Err(Prereq(..)) naming a missing item; every pair that builds runs an honest handshake that must complete without any error. (B) 38 patterns x psk modifier sets (every single index 0..=9, every subset of 0..=4, fallback, psk+fallback) with all keys: Ok iff every index <= #messages and no fallback, else Err(Pattern(InvalidPsk|UnsupportedModifier)). (C) resolvers lacking each of rng/dh/hash/cipher and DH 448 x both roles x generate_keypair: the matching Err(Init(Get..Impl)). (D) psk handshake strings x every subset of PSKs supplied at build time on either side (PSK values random, and - for equal subsets - an all-zero / all-ones first PSK): the handshake proceeds exactly until the first call whose message contains an unsupplied psk token, that call returns Err, and such a pair never completes. Non-trivial = a configuration where exactly one required item is missing or an optional one is extra, or a PSK is missing; distinct by configuration tuple",
+    rule: "complete enumeration of the finite configuration space: (A) 38 patterns x {25519,P256} (suite rotating over all ciphers and hashes, resolver rotating over default / ring-over-default / default-over-ring) x all 16 combinations of {local static, remote static} supplied to the two roles, also on every single-psk variant of the pattern with the PSK given at build time or left for set_psk(): each build must be Ok iff the role's required keys (derived from the harness's own pattern table: local static iff the role's s occurs as pre-message or message token; remote static iff the peer's s is a pre-message) are supplied, else Err(Prereq(..)) naming a missing item; every pair that builds runs an honest handshake that must complete without any error. (B) 38 patterns x psk modifier sets (every single index 0..=9, every subset of 0..=4, fallback, psk+fallback) with all keys: Ok iff every index <= #messages and no fallback, else Err(Pattern(InvalidPsk|UnsupportedModifier)). (C) resolvers lacking each of rng/dh/hash/cipher and DH 448 x both roles x generate_keypair: the matching Err(Init(Get..Impl)). (D) psk handshake strings x every subset of PSKs supplied at build time on either side (PSK values random, and - for equal subsets - an all-zero / all-ones first PSK): the handshake proceeds exactly until the first call whose message contains an unsupplied psk token, that call returns Err, and such a pair never completes. Non-trivial = a configuration where exactly one required item is missing or an optional one is extra, or a PSK is missing; distinct by configuration tuple",
     technique: "exhaustive enumeration of the builder configuration space against requirements derived from an independent pattern table",
     assumptions: &[],
     panic_is_violation: false,
@@ -57,11 +57,18 @@ fn oracle(c: &Case, acc: &mut Acc) -> CaseResult {
     let suites = all_suites();
     match c {
         Case::Keys { pattern, dh, s_i, rs_i, s_r, rs_r, psk } => {
-            let suite = *suites.iter().find(|s| s.dh == *dh).unwrap();
+            // the suite rotates over all 12 of this DH, and the resolver over the default one and the
+            // two fallback compositions with ring (ring has no BLAKE2, XChaChaPoly or DH: a name
+            // is buildable if ANY member provides the primitive)
+            let of_dh: Vec<_> = suites.iter().filter(|s| s.dh == *dh).collect();
+            let rot = pattern.bytes().map(|b| b as usize).sum::<usize>() + (*s_i as usize) * 3 + (*rs_i as usize) * 5 + (*s_r as usize) * 7 + (*rs_r as usize) * 11 + psk.map_or(0, |p| p.0 as usize * 13 + p.1 as usize);
+            let suite = *of_dh[rot % of_dh.len()];
             // key material differs from configuration to configuration (incl. the shaped keys
             // of sess::shaped_priv / golden_shaped)
             let kseed = 0xC12 + pattern.bytes().map(|b| b as u64).sum::<u64>() * 16 + (*s_i as u64) + 2 * (*rs_i as u64) + 4 * (*s_r as u64) + 8 * (*rs_r as u64);
-            let spec = SessionSpec::simple(HsName { pattern: pattern.clone(), psks: psk.map(|p| vec![p.0]).unwrap_or_default() }, suite, kseed);
+            let mut spec = SessionSpec::simple(HsName { pattern: pattern.clone(), psks: psk.map(|p| vec![p.0]).unwrap_or_default() }, suite, kseed);
+            spec.backend_i = crate::instr::BACKENDS[rot % 3];
+            spec.backend_r = crate::instr::BACKENDS[(rot / 3) % 3];
             let pat = spec.pattern();
             let omit: Vec<u8> = match psk {
                 Some((n, false)) => vec![*n],
